@@ -595,6 +595,16 @@ func (x *Exec) evalCall(env *Env, e *Expr) (Val, error) {
 			nv = Sub(cur, args[3])
 		}
 		return Store(args[0], args[1], Store(row, args[2], nv)), nil
+	case "anyaddr": // a free address constant: universally quantified when proving the clause
+		if len(e.Args) != 1 || e.Args[0].Kind != "num" {
+			return nil, fmt.Errorf("anyaddr(k)")
+		}
+		return Sym("any_addr_"+e.Args[0].Num.String(), SBytes), nil
+	case "anydenom":
+		if len(e.Args) != 1 || e.Args[0].Kind != "num" {
+			return nil, fmt.Errorf("anydenom(k)")
+		}
+		return Sym("any_denom_"+e.Args[0].Num.String(), SStr), nil
 	case "isempty":
 		if err := need(1); err != nil {
 			return nil, err
